@@ -13,6 +13,7 @@ import MtailVerif.Driver.C17
 import MtailVerif.Driver.C19
 import MtailVerif.Driver.C02
 import MtailVerif.Driver.VMSrv
+import MtailVerif.Driver.C20
 /-! `mtailmodel <prop>`: reads the case lines written by the Go harness on stdin and prints
     `<id> OBS <observation>` computed by the Lean model.  Core Lean only (links as an exe). -/
 open MtailVerif MtailVerif.Driver
@@ -32,6 +33,7 @@ def handlerFor (prop : String) : Option (List String → String) :=
   | "C17" => some C17.handle
   | "C19" => some C19.handle
   | "C02" => some C02.handle
+  | "C20" => some C20.handle
   | "C14" => some Rt.handle
   | "C06" => some Rt.handle
   | "C25" => some Rt.handle
